@@ -1919,7 +1919,8 @@ def dask_groupby_agg(
                 group_chunks = ((len(expected_groups),),)
 
         elif method == "cohorts":
-            assert chunks_cohorts
+            if not chunks_cohorts:
+                raise ValueError("method='cohorts' requires at least one of the expected groups to be present in `by`.")
             block_shape = array.blocks.shape[-len(axis) :]
 
             out_name = f"{name}-reduce-{method}-{token}"
